@@ -43,12 +43,8 @@ impl<K, V> StdMap<K, V> {
 }
 
 // ---- A-iter additions ------------------------------------------------------------------------------
-// `.sum::<usize>()` / `.sum::<u32>()`: the integer total; `sum_req` demands that it fits (debug builds
-// panic on overflow, release builds wrap).  The u32 impl is the text of env/vsum_impls.vs.
-impl VSum<usize> for usize {
-    open spec fn sum_req(s: Seq<usize>) -> bool { isum(s.map_values(|x: usize| x as int)) <= usize::MAX }
-    open spec fn spec_sum(s: Seq<usize>) -> usize { isum(s.map_values(|x: usize| x as int)) as usize }
-}
+// `.sum::<u32>()`: the integer total; `sum_req` demands that it fits (debug builds panic on overflow,
+// release builds wrap).  Same text as env/vsum_impls.vs (not included: it needs the Distance codec).
 impl VSum<u32> for u32 {
     open spec fn sum_req(s: Seq<u32>) -> bool { isum(s.map_values(|x: u32| x as int)) <= u32::MAX }
     open spec fn spec_sum(s: Seq<u32>) -> u32 { isum(s.map_values(|x: u32| x as int)) as u32 }
